@@ -86,6 +86,110 @@ pub(crate) fn e2e_true_string(_s: &str, _position: u8, _quote_all: bool, _yaml_1
     true
 }
 
+/// What an untyped reader (`deserialize_any`) takes a node for.
+#[derive(Debug, PartialEq, Eq, PartialOrd, Ord)]
+pub(crate) enum Untyped {
+    Null,
+    Bool,
+    Int,
+    Float,
+    Str(String),
+    Other,
+}
+
+impl<'de> serde::Deserialize<'de> for Untyped {
+    fn deserialize<D: serde::Deserializer<'de>>(d: D) -> Result<Self, D::Error> {
+        struct V;
+        impl<'de> serde::de::Visitor<'de> for V {
+            type Value = Untyped;
+            fn expecting(&self, f: &mut std::fmt::Formatter) -> std::fmt::Result {
+                f.write_str("any scalar")
+            }
+            fn visit_bool<E>(self, _v: bool) -> Result<Untyped, E> {
+                Ok(Untyped::Bool)
+            }
+            fn visit_i64<E>(self, _v: i64) -> Result<Untyped, E> {
+                Ok(Untyped::Int)
+            }
+            fn visit_u64<E>(self, _v: u64) -> Result<Untyped, E> {
+                Ok(Untyped::Int)
+            }
+            fn visit_i128<E>(self, _v: i128) -> Result<Untyped, E> {
+                Ok(Untyped::Int)
+            }
+            fn visit_u128<E>(self, _v: u128) -> Result<Untyped, E> {
+                Ok(Untyped::Int)
+            }
+            fn visit_f64<E>(self, _v: f64) -> Result<Untyped, E> {
+                Ok(Untyped::Float)
+            }
+            fn visit_str<E>(self, v: &str) -> Result<Untyped, E> {
+                Ok(Untyped::Str(v.to_string()))
+            }
+            fn visit_string<E>(self, v: String) -> Result<Untyped, E> {
+                Ok(Untyped::Str(v))
+            }
+            fn visit_unit<E>(self) -> Result<Untyped, E> {
+                Ok(Untyped::Null)
+            }
+            fn visit_none<E>(self) -> Result<Untyped, E> {
+                Ok(Untyped::Null)
+            }
+            fn visit_seq<A: serde::de::SeqAccess<'de>>(self, mut a: A) -> Result<Untyped, A::Error> {
+                while let Some(_x) = a.next_element::<Untyped>()? {}
+                Ok(Untyped::Other)
+            }
+            fn visit_map<A: serde::de::MapAccess<'de>>(self, mut a: A) -> Result<Untyped, A::Error> {
+                while let Some((_k, _v)) = a.next_entry::<Untyped, Untyped>()? {}
+                Ok(Untyped::Other)
+            }
+        }
+        d.deserialize_any(V)
+    }
+}
+
+/// Like `e2e_string_mismatch`, but read back through an UNTYPED target: true if the emitted
+/// string does not come back as a string with the same text (e.g. as null, a bool or a number).
+/// position: 0 root, 2 block mapping value, 3 block mapping key
+pub(crate) fn e2e_untyped_mismatch(s: &str, position: u8, yaml_12: bool) -> bool {
+    use std::collections::BTreeMap;
+    let mut opts = crate::SerializerOptions::default();
+    opts.yaml_12 = yaml_12;
+    let owned = s.to_string();
+    let want = Untyped::Str(owned.clone());
+    match position {
+        0 => {
+            let y = match crate::to_string_with_options(&owned, opts) {
+                Ok(y) => y,
+                Err(_) => return true,
+            };
+            !matches!(crate::from_str::<Untyped>(&y), Ok(b) if b == want)
+        }
+        2 => {
+            let mut m = BTreeMap::new();
+            m.insert("k".to_string(), owned);
+            let y = match crate::to_string_with_options(&m, opts) {
+                Ok(y) => y,
+                Err(_) => return true,
+            };
+            !matches!(crate::from_str::<BTreeMap<String, Untyped>>(&y), Ok(b) if b.get("k") == Some(&want))
+        }
+        _ => {
+            let mut m = BTreeMap::new();
+            m.insert(owned, "v".to_string());
+            let y = match crate::to_string_with_options(&m, opts) {
+                Ok(y) => y,
+                Err(_) => return true,
+            };
+            !matches!(crate::from_str::<BTreeMap<Untyped, String>>(&y), Ok(b) if b.len() == 1 && b.contains_key(&want))
+        }
+    }
+}
+
+pub(crate) fn e2e_true_untyped(_s: &str, _position: u8, _yaml_12: bool) -> bool {
+    true
+}
+
 /// N arbitrary ASCII bytes (0x00..=0x7F).
 pub(crate) fn any_ascii<const N: usize>() -> [u8; N] {
     let a: [u8; N] = kani::any();
